@@ -2,3 +2,5 @@ import NmfuProps.EquivSound
 import NmfuProps.RtBridge
 import NmfuProps.C05
 import NmfuProps.C06
+import NmfuProps.C02
+import NmfuProps.C10
